@@ -15,7 +15,8 @@ use std::rc::Rc;
 
 #[derive(Clone, Debug, PartialEq)]
 pub struct FaultSpec {
-    /// 0 first call, 1 last call, 2 the call that ends a line, 3 fraction of the calls
+    /// 0 first call, 1 last call, 2 the call that ends a line, 3 fraction of the calls,
+    /// 4 byte offset = fraction of the expected output size (writes only)
     pub pos: u8,
     pub frac: f64,
     pub kind: FaultKind,
@@ -167,7 +168,7 @@ fn gen_faults(rng: &mut Rng, mode: u8, writing: bool) -> Vec<FaultSpec> {
         } else {
             FaultKind::EintrRead
         };
-        out.push(FaultSpec { pos: rng.below(4) as u8, frac: rng.unit(), kind, amount: rng.usize_below(1 << 16) });
+        out.push(FaultSpec { pos: rng.below(if writing { 5 } else { 4 }) as u8, frac: rng.unit(), kind, amount: rng.usize_below(1 << 16) });
     }
     out
 }
@@ -366,7 +367,7 @@ impl<'a> World<'a> {
         Ok(())
     }
 
-    fn arm(&self, specs: &[FaultSpec], est_calls: usize, row_len: usize) -> Vec<Armed> {
+    fn arm(&self, specs: &[FaultSpec], est_calls: usize, row_len: usize, est_bytes: usize) -> Vec<Armed> {
         specs
             .iter()
             .map(|s| {
@@ -384,7 +385,8 @@ impl<'a> World<'a> {
                     }
                     _ => ((s.frac * est as f64) as usize).min(est - 1),
                 };
-                Armed { at, kind: s.kind, amount: s.amount }
+                let byte = if s.pos == 4 { Some((s.frac * est_bytes as f64) as usize) } else { None };
+                Armed { at, kind: s.kind, amount: s.amount, byte }
             })
             .collect()
     }
@@ -744,7 +746,8 @@ impl<'a> World<'a> {
         };
         let row_len = 2 * (nvars + 1) + 1;
         let est = nnodes * row_len;
-        let armed = self.arm(faults, est, row_len);
+        let est_bytes = nnodes * (nvars + 1) * (prec + 6);
+        let armed = self.arm(faults, est, row_len, est_bytes);
         self.disk.borrow_mut().begin_op(&armed);
         let r = {
             let l = self.pool[s].as_ref().unwrap();
@@ -862,7 +865,7 @@ impl<'a> World<'a> {
                 Some(cands[m % cands.len()])
             }
         });
-        let armed = self.arm(faults, 4, 0);
+        let armed = self.arm(faults, 4, 0, 0);
         if self.read_bypass {
             self.materialise();
         }
